@@ -28,6 +28,20 @@ thread_local! {
     static IN_A10: Cell<u32> = const { Cell::new(0) };
 }
 
+thread_local! {
+    /// Set while Ring::poll / Ring::drop (the completion consumer) runs.
+    static IN_CONSUMER: Cell<u32> = const { Cell::new(0) };
+}
+
+/// Run `f` as the completion consumer (Ring::poll, Ring's drop).
+pub fn consumer<R>(f: impl FnOnce() -> R) -> R {
+    IN_CONSUMER.with(|c| c.set(c.get() + 1));
+    let _a = A10Guard::new();
+    let r = f();
+    IN_CONSUMER.with(|c| c.set(c.get() - 1));
+    r
+}
+
 pub struct MonGuard;
 impl MonGuard {
     pub fn new() -> MonGuard {
@@ -104,6 +118,9 @@ pub struct Held {
     pub req: u64,
     pub what: u8,
     pub freed: bool,
+    /// The kernel is done; only a10's completion handling (Ring::poll) may
+    /// still dereference (and free) it.
+    pub consumer_phase: bool,
 }
 
 const MAX_HELD: usize = 4096;
@@ -113,6 +130,7 @@ static mut HELD: [Held; MAX_HELD] = [Held {
     req: 0,
     what: 0,
     freed: false,
+    consumer_phase: false,
 }; MAX_HELD];
 static HELD_LEN: AtomicUsize = AtomicUsize::new(0);
 
@@ -160,6 +178,7 @@ pub fn hold(start: usize, len: usize, req: u64, what: u8) {
             req,
             what,
             freed: false,
+            consumer_phase: false,
         };
     }
     HELD_LEN.store(n + 1, Ordering::Relaxed);
@@ -182,9 +201,41 @@ pub fn release(req: u64) {
     HELD_LEN.store(n, Ordering::Relaxed);
 }
 
+/// Release the regions of `req` except those of kind `keep`.
+pub fn release_except(req: u64, keep: u8) {
+    let _l = lock();
+    let held = unsafe { &mut *(&raw mut HELD) };
+    let mut n = HELD_LEN.load(Ordering::Relaxed);
+    let mut i = 0;
+    while i < n {
+        if held[i].req == req && held[i].what != keep {
+            held[i] = held[n - 1];
+            n -= 1;
+        } else {
+            if held[i].req == req {
+                held[i].consumer_phase = true;
+            }
+            i += 1;
+        }
+    }
+    HELD_LEN.store(n, Ordering::Relaxed);
+}
+
 pub fn release_all() {
     let _l = lock();
     HELD_LEN.store(0, Ordering::Relaxed);
+}
+
+/// True if the region of kind `what` of `req` was freed while held.
+pub fn was_freed_what(req: u64, what: u8) -> bool {
+    let _l = lock();
+    let held = unsafe { &*(&raw const HELD) };
+    let n = HELD_LEN.load(Ordering::Relaxed);
+    held[..n].iter().any(|h| h.req == req && h.freed && h.what == what)
+}
+
+pub fn pending_violations() -> usize {
+    VIOL_LEN.load(Ordering::Relaxed)
 }
 
 /// True if a region of `req` was freed while held.
@@ -235,7 +286,7 @@ fn push_viol(v: Viol) {
 /// Take all recorded violations.
 pub fn take_violations() -> Vec<Viol> {
     let _g = MonGuard::new();
-    let mut out = Vec::new();
+    let mut out = Vec::with_capacity(MAX_VIOL);
     let _l = lock();
     let n = VIOL_LEN.load(Ordering::Relaxed);
     for i in 0..n {
@@ -353,6 +404,10 @@ pub fn end_tracking() -> Vec<Leak> {
         return leaks;
     }
     let mut to_free: Vec<(usize, usize, u32)> = Vec::new();
+    // No allocation may happen while the table lock is held.
+    let n = TABLE_ACTIVE.load(Ordering::Relaxed) + 64;
+    to_free.reserve(n);
+    leaks.reserve(n);
     {
         let _l = lock();
         TRACKING.store(false, Ordering::Release);
@@ -361,7 +416,7 @@ pub fn end_tracking() -> Vec<Leak> {
             for e in t.iter_mut() {
                 match e.state {
                     1 => {
-                        if e.a10 {
+                        if e.a10 && leaks.len() < leaks.capacity() {
                             leaks.push(Leak {
                                 addr: e.addr,
                                 size: e.size,
@@ -382,7 +437,9 @@ pub fn end_tracking() -> Vec<Leak> {
                                 seq: e.seq,
                             });
                         }
-                        to_free.push((e.addr, e.size, e.align));
+                        if to_free.len() < to_free.capacity() {
+                            to_free.push((e.addr, e.size, e.align));
+                        }
                     }
                     _ => {}
                 }
@@ -402,6 +459,27 @@ pub fn end_tracking() -> Vec<Leak> {
     }
     leaks.sort_by_key(|l| l.seq);
     leaks
+}
+
+/// After a panic: stop tracking and forget everything (blocks are leaked).
+pub fn force_stop_tracking() {
+    if PASS_THROUGH_ONLY {
+        return;
+    }
+    let _l = lock();
+    TRACKING.store(false, Ordering::Release);
+    if TABLE_USED.load(Ordering::Relaxed) > 0 {
+        for e in table().iter_mut() {
+            e.state = 0;
+        }
+    }
+    TABLE_USED.store(0, Ordering::Relaxed);
+    TABLE_ACTIVE.store(0, Ordering::Relaxed);
+    HELD_LEN.store(0, Ordering::Relaxed);
+    VIOL_LEN.store(0, Ordering::Relaxed);
+    IN_MON.with(|c| c.set(0));
+    IN_A10.with(|c| c.set(0));
+    IN_CONSUMER.with(|c| c.set(0));
 }
 
 /// Number of live tracked blocks that were allocated inside a10 calls.
@@ -428,12 +506,13 @@ pub fn live_a10_since(since: u64) -> Vec<Leak> {
     if PASS_THROUGH_ONLY {
         return out;
     }
+    out.reserve(TABLE_ACTIVE.load(Ordering::Relaxed) + 64);
     let _l = lock();
     if TABLE_USED.load(Ordering::Relaxed) == 0 {
         return out;
     }
     for e in table().iter() {
-        if e.state == 1 && e.a10 && e.seq >= since {
+        if e.state == 1 && e.a10 && e.seq >= since && out.len() < out.capacity() {
             out.push(Leak {
                 addr: e.addr,
                 size: e.size,
@@ -472,8 +551,14 @@ fn check_held(ptr: usize, size: usize) {
     let held = unsafe { &mut *(&raw mut HELD) };
     let n = HELD_LEN.load(Ordering::Relaxed);
     let end = ptr + size.max(1);
+    let consumer = IN_CONSUMER.try_with(|c| c.get() > 0).unwrap_or(false);
     for h in held[..n].iter_mut() {
         if h.start < end && ptr < h.end && !h.freed {
+            if h.consumer_phase && consumer {
+                // Ring::poll reclaiming the state of a dropped operation.
+                h.freed = true;
+                continue;
+            }
             h.freed = true;
             push_viol(Viol {
                 kind: V_FREE_WHILE_HELD,
